@@ -56,8 +56,10 @@ def run_property(prop, tier, seed, only=None):
             # a wrong postcondition verified.  If the right postcondition of the same function ALSO verifies the engine is
             # vacuous/unsound (checker error).  If the right one is refuted, the tree simply behaves like the canary's
             # wrong spec - the refuted obligation below is the verdict.
-            fn_bad = any(o.status == "refuted" and o.function == c.get("function") for o in ded.obligations)
-            if not fn_bad:
+            # If the function left the accepted subset (its real obligations are undecided) the canary is undecided too.
+            fn_obls = [o for o in ded.obligations if o.function == c.get("function")]
+            fn_all_ok = bool(fn_obls) and all(o.status == "discharged" for o in fn_obls)
+            if fn_all_ok or not fn_obls:
                 print(f"CHECKER-ERROR {prop}: canary {c['name']} was NOT refuted - engine unsound or vacuous")
                 return 3
     os.makedirs(core.REPLAYS, exist_ok=True)
